@@ -471,6 +471,7 @@ def docCalls (env : NsEnv) (cfg : Cfg) (m : List (Pfx × Str)) (q : Str) (attrs 
 
 theorem handlerRun_document (env : NsEnv) (cfg : Cfg) (m : List (Pfx × Str)) (q : Str)
     (attrs : List (Str × Val)) (kids : Content) (cs : List Call)
+    (hv : prefixesValid env (serializerNsMap m) = true)
     (h : docCalls env cfg m q attrs kids = some cs) :
     handlerRun env cfg false m (document q attrs kids) = (cs, none) := by
   unfold docCalls at h
@@ -480,6 +481,7 @@ theorem handlerRun_document (env : NsEnv) (cfg : Cfg) (m : List (Pfx × Str)) (q
     · rename_i M2 A ha
       have hshape := rootAttrs_shape env cfg _ s0 hr
       unfold handlerRun
+      simp only [hv, Bool.not_true, Bool.false_eq_true, if_false]
       rw [hr]
       simp only [document, flatten]
       rw [hshape]
@@ -496,10 +498,12 @@ theorem handlerRun_document (env : NsEnv) (cfg : Cfg) (m : List (Pfx × Str)) (q
 
 theorem handlerRun_native_document (env : NsEnv) (cfg : Cfg) (hi : cfg.indent = none) (m : List (Pfx × Str))
     (q : Str) (attrs : List (Str × Val)) (kids : Content) (cs : List Call)
+    (hv : prefixesValid env (serializerNsMap m) = true)
     (h : docCalls env cfg m q attrs kids = some cs) :
     handlerRun env cfg true m (document q attrs kids) = (cs, none) := by
-  rw [← handlerRun_document env cfg m q attrs kids cs h]
+  rw [← handlerRun_document env cfg m q attrs kids cs hv h]
   unfold handlerRun
+  simp only [hv, Bool.not_true, Bool.false_eq_true, if_false]
   split
   · rfl
   · exact hLoop_native_noindent env cfg hi _ _
